@@ -21,7 +21,8 @@ LEVEL = 'exploration'
 RULE = ('random universes (multi-namespace, inheritance, attributes/XmlData, choice groups, declared defaults, restrictions on every primitive) x {XmlDocument, Soap11, '
         'Soap12}: schema compilation; libxml2 validation of every document spyne emitted (server responses, loopback-client requests); '
         'lxml-vs-soft verdict pairs over boundary values at every leaf slot of dense requests, and over EVERY slot and boundary value of a fixed three-level class tree (inherited mandatory, bounded-repeat, array and faceted members); non-trivial = an emitted document that was '
-        'validated, or a boundary document that reached both validators; distinct by (protocol, emitter/slot position, facet, value label).')
+        'validated, or a boundary document that reached both validators; distinct by (protocol, emitter/slot position, facet, value label).'
+        ' Also: documents emitted for the fixed class tree, message-level nil / empty request elements, choice groups incl. repeated members, classes that contain themselves, Double ranges (NaN with bounds is not judged by libxml2).')
 ASSUMPTIONS = [
     'libxml2 (lxml) is the schema processor; the schema is compiled by spyne.interface.xml_schema build_validation_schema from the documents spyne writes',
     'boundary documents are built by the reference encoder in non-strict mode from the published schema: only declared members in declared order',
